@@ -43,7 +43,7 @@ _dict_reg = dict(D.BASE_REGISTRY)
 
 PROPERTY = Property(
     'C12', 'A read-only selection never changes the mailbox',
-    contracts=_session + [ST.do_fetch, ST.do_close, SELM.any_selected, dict_get],
+    contracts=_session + [ST.do_fetch, ST.do_close, SELM.any_selected, dict_get, SES.sel_init],
     registry=dict(list(_dict_reg.items()) + list(REG.items())),
     bounded=[Bounded('every message command inside a read-only selection (real server)',
                      '25 commands (FETCH incl. BODY[] and RFC822, STORE x5 incl. FLAGS () and non-permitted flags, '
